@@ -6,6 +6,7 @@ CONSTANTS
   Types = {}
   RasDims = {}
   ScaleSets = {}
+  Grows = {1, 2, 3}
   MaxObjs = 1000
   MaxOps = 1
   Mix = TRUE
